@@ -197,6 +197,18 @@ class SeqNum(int):
         else:
             raise TypeError(str(other))
 
+    def __le__(self, other) -> bool:
+        if isinstance(other, SeqNum):
+            return super().__le__(super().__add__((other.diff(self))))
+        else:
+            raise TypeError(str(other))
+
+    def __ge__(self, other) -> bool:
+        if isinstance(other, SeqNum):
+            return super().__ge__(super().__add__((other.diff(self))))
+        else:
+            raise TypeError(str(other))
+
 class BitField(object):
     """ The bitfield keeps track of recently received messages.
     It uses a one hot encoding to indicate received SeqNum using
